@@ -46,7 +46,7 @@ import (
 const rbDefaultLimitMs = 2000
 
 // second stage for inputs that exceed the limit three times: terminates within this bound = slow, not hanging
-const rbSlowLimitMs = 90000
+const rbSlowLimitMs = 240000
 
 func rbLimitMs() int {
 	if s := os.Getenv("VERIF_C01_LIMIT_MS"); s != "" {
